@@ -159,9 +159,17 @@ PROPS = {
     "C13": {
         "proofs": ["ZlProofs.Props.C13"],
         "corr": ["codec", "filter"],
-        "search": ["meta"],
+        "search": ["meta", "cli"],
         "trusted_base": TB_COMMON,
         "assumptions": ["CLI flag plumbing is covered by C15"],
+    },
+    "C15": {
+        "proofs": ["ZlProofs.Props.C15"],
+        "corr": ["cli"],
+        "search": [],
+        "trusted_base": TB_COMMON + ["the harness's execution of the built binary and its parsing of the summary tables"],
+        "assumptions": ["process behaviour (exit codes, stdout buffering, log.Fatal) is observed, not proved"],
+        "partial": "only dispatch, format override and counting are proved; equality of printed results with the library's is observed on the corpus",
     },
     "C16": {
         "proofs": ["ZlProofs.Props.C16"],
@@ -285,5 +293,9 @@ CLAIMS.update({
 CLAIMS["C11"] = {"technique": "Lean 4 proof (locality, error locality, no-leak state machine) over a typed-field model of configuration + correspondence on generated TOML",
     "text": "locality / absent_is_default / other_lints_unaffected / not_a_table_is_error / error_local / no_leak_r1 / filter_inherits / defaults_roundtrip_partial hold for all documents, specs and operation sequences. Tie: probe lints (certificate, CRL, one embedding Global) echoing their configured fields under generated TOML (well-typed, ill-typed, scalar/array/array-of-tables where a table is expected, unknown keys, unrelated sections) and SetConfiguration/Filter/lint sequences; the real configurable lints, DefaultConfiguration (valid TOML, a section per configurable lint, no verdict change) and error locality on the real registry.",
     "note": "Partial: A-TOML. The non-table panic was a genuine defect, repaired by fix: 268fc05."}
+
+CLAIMS["C15"] = {"technique": "Lean 4 proof of the dispatch / format-override / summary-count logic + built-binary vs library differential run",
+    "text": "dispatch_total, dispatch_cert_iff, dispatch_crl_iff, encodings_agree, fails_closed, summary_levels, summary_counts for all inputs. Tie and search: the binary built from the current tree is run on corpus certificates and CRLs in PEM / DER / base64, from file and stdin, several files per invocation, with generated selection and summary flags; printed results and summary counts are compared with in-process library results under the same FilterOptions; nineteen classes of undecodable input / unknown selectors must exit non-zero with empty stdout.",
+    "note": "Partial: process behaviour is observed, not proved."}
 
 NOT_APPLICABLE = {}
